@@ -150,6 +150,23 @@ def part_a(case: dict, g: dict, rng) -> tuple[list[dict], dict, bool]:  # noqa: 
                 counters["jacobian_points"] = counters.get("jacobian_points", 0) + 1
                 if not np.allclose(J, Jn, rtol=1e-5, atol=1e-6):
                     # conditionals are not differentiable at their boundaries: skip points near a kink
+                    if "conditional" in feats:
+                        # one-sided slopes differ where a branch switches (also exactly on the switching point, where the
+                        # central difference straddles it): the right-hand side has no derivative there
+                        f0 = np.array(m2(t, list(x0)))
+                        one_sided_differ = False
+                        for j in range(n):
+                            h = 1e-6 * max(1.0, abs(x0[j]))
+                            xp, xm = x0.copy(), x0.copy()
+                            xp[j] += h
+                            xm[j] -= h
+                            fwd = (np.array(m2(t, list(xp))) - f0) / h
+                            bwd = (f0 - np.array(m2(t, list(xm)))) / h
+                            if not np.allclose(fwd, bwd, rtol=1e-3, atol=1e-4):
+                                one_sided_differ = True
+                        if one_sided_differ:
+                            counters["jacobian_points_skipped_near_kink"] = counters.get("jacobian_points_skipped_near_kink", 0) + 1
+                            continue
                     if "conditional" in feats and np.max(np.abs(J - Jn)) > 1e-3:
                         xk = x0 * (1 + 1e-3)
                         if not np.allclose(np.array(m2(t, list(xk))), np.array(num) + Jn @ (xk - x0), rtol=1e-3, atol=1e-4):
@@ -258,7 +275,7 @@ def run_case(case: dict) -> dict:
     part = case["part"]
     counters: dict[str, int] = {f"part:{part}": 1}
     if part in ("A", "lib"):
-        g = gen(rng, conditionals=rng.random() < 0.5, module_state=0.25) if part == "A" else lib_model(rng)
+        g = gen(rng, conditionals=rng.random() < 0.5, module_state=0.25, equality_gates=False) if part == "A" else lib_model(rng)
         if "module_state" in g["features"]:
             # one conversion was made in this process before the module-level values the rate laws read are re-bound
             with module_state_rebound(rng, lambda: to_symbolic_model(rm.build(g["spec"]))):
